@@ -1,5 +1,3 @@
-//go:build ignore
-
 package main
 
 import (
@@ -290,6 +288,7 @@ func (w *rtWorld) publish(id string, m rtMsg) {
 	}
 	pk := broker.PublishPk(m.topic, []byte(m.payload), m.qos, m.retain, pid)
 	if c.ver == 5 {
+		pk.Mods.AllowResponseInfo = true // client side encoder: response topic / correlation data are written only with this
 		pk.Properties.ContentType = m.ct
 		pk.Properties.ResponseTopic = m.rt
 		pk.Properties.CorrelationData = []byte(m.cd)
@@ -301,9 +300,17 @@ func (w *rtWorld) publish(id string, m rtMsg) {
 	w.emit(append(sx.L{sx.N(5), sx.S(id)}, rtMsgSx(m)...))
 }
 
+// do runs a synchronous server API call as one step.  broker.Do starts the action in a goroutine and may
+// observe quiescence before the action has queued its packets; once Do has returned the action is
+// complete, so a second Quiesce is exact.
+func (w *rtWorld) do(f func()) {
+	w.b.Do(f)
+	w.b.Quiesce()
+}
+
 func (w *rtWorld) inlinePublish(m rtMsg) {
 	m.ct, m.rt, m.cd, m.user = "", "", "", nil
-	w.b.Do(func() { _ = w.b.Srv.Publish(m.topic, []byte(m.payload), m.retain, m.qos) })
+	w.do(func() { _ = w.b.Srv.Publish(m.topic, []byte(m.payload), m.retain, m.qos) })
 	w.emit(append(sx.L{sx.N(6)}, rtMsgSx(m)...))
 }
 
@@ -314,19 +321,19 @@ func (w *rtWorld) inlineSubscribe(id int, filter string) {
 			payload: append([]byte{}, pk.Payload...), qos: pk.FixedHeader.Qos, retain: pk.FixedHeader.Retain})
 		w.mu.Unlock()
 	}
-	w.b.Do(func() { _ = w.b.Srv.Subscribe(filter, id, h) })
+	w.do(func() { _ = w.b.Srv.Subscribe(filter, id, h) })
 	w.emit(sx.L{sx.N(7), sx.N(uint64(id)), sx.S(filter)})
 }
 
 func (w *rtWorld) inlineUnsubscribe(id int, filter string) {
-	w.b.Do(func() { _ = w.b.Srv.Unsubscribe(filter, id) })
+	w.do(func() { _ = w.b.Srv.Unsubscribe(filter, id) })
 	w.emit(sx.L{sx.N(8), sx.N(uint64(id)), sx.S(filter)})
 }
 
 func (w *rtWorld) close() { w.b.Shutdown() }
 
 var rtTopics = []string{"a/b", "a/c", "a", "b"}
-var rtPlain = []string{"a/b", "a/+", "a/#", "#", "+/b", "a/c", "+", "b"}
+var rtPlain = []string{"a/b", "a/+", "a/#", "#", "+/b", "a/c", "+", "b", "$d/#"}
 var rtShared = []string{"$share/g/a/+", "$share/h/a/#", "$share/g/a/#", "$share/h/a/b", "$share/g/+/b"}
 var rtOdd = []string{"a/b#", "x/#", "$share/g/#"}
 
@@ -340,9 +347,9 @@ func engRoute(seed int64, tier string, args []string, out *sx.Out) {
 		rtProducts(rng, tier, out)
 		return
 	}
-	hist, steps := 260, 24
+	hist, steps := 2000, 25
 	if tier == "thorough" {
-		hist, steps = 4000, 50
+		hist, steps = 20000, 40
 	}
 	for h := 0; h < hist; h++ {
 		rtHistory(rng, mode, h, steps, out)
@@ -351,6 +358,11 @@ func engRoute(seed int64, tier string, args []string, out *sx.Out) {
 
 func rtRandMsg(rng *rand.Rand, mode string, v5 bool) rtMsg {
 	m := rtMsg{topic: rtTopics[rng.Intn(len(rtTopics))], payload: "m" + string(rune('0'+rng.Intn(10))), qos: byte(rng.Intn(3))}
+	if k := rng.Intn(40); k == 0 {
+		m.topic = "$SYS/x" // refused from clients, allowed from the inline client
+	} else if k < 4 {
+		m.topic = "$d/b" // a '$' topic: not matched by filters starting with a wildcard
+	}
 	retainOdds := 4
 	if mode == "c05" {
 		retainOdds = 2
@@ -488,8 +500,31 @@ func rtHistory(rng *rand.Rand, mode string, h, steps int, out *sx.Out) {
 	}
 }
 
+// rtScripted: fixed scenarios for the merge of shared and non-shared subscriptions of one client.
+func rtScripted(out *sx.Out) {
+	for maxqos := byte(0); maxqos < 3; maxqos++ {
+		for _, withPlain := range []bool{true, false} {
+			w := newWorld(out, maxqos, true, nil)
+			w.connect("p", 5, true, false, false)
+			w.connect("s", 5, true, false, false)
+			if withPlain {
+				w.subscribe("s", []rtSub{{filter: "a/b", qos: 0, id: 1}})
+			}
+			w.subscribe("s", []rtSub{{filter: "$share/g/a/+", qos: 1, id: 2}})
+			w.subscribe("s", []rtSub{{filter: "$share/h/a/#", qos: 2, id: 3, rap: true}})
+			w.subscribe("s", []rtSub{{filter: "$share/k/#", qos: 0, id: 0}})
+			for q := byte(0); q < 3; q++ {
+				w.publish("p", rtMsg{topic: "a/b", payload: "l", qos: q, retain: q == 1})
+			}
+			w.inlinePublish(rtMsg{topic: "a/b", payload: "i", qos: 2})
+			w.close()
+		}
+	}
+}
+
 // rtProducts: the exhaustive small products for C04.
 func rtProducts(rng *rand.Rand, tier string, out *sx.Out) {
+	rtScripted(out)
 	filters := []string{"a/b", "a/+", "a/#", "#"}
 	type opt struct {
 		qos byte
@@ -505,9 +540,9 @@ func rtProducts(rng *rand.Rand, tier string, out *sx.Out) {
 			}
 		}
 	}
-	perCfg := 28
+	perCfg := 150
 	if tier == "thorough" {
-		perCfg = 1200
+		perCfg = 3000
 	}
 	for maxqos := byte(0); maxqos < 3; maxqos++ {
 		for _, ver := range []byte{4, 5} {
